@@ -58,7 +58,7 @@ func classifyAnteOps(e *Engine, d *Decorator) []anteOp {
 				args = args[1:] // static method call: first arg is the receiver
 			}
 			for _, a := range args {
-				if isSdkContext(a.Type()) {
+				if _, isCtx := ctxArg(a); isCtx {
 					op.kind = "keeper"
 				}
 			}
